@@ -18,6 +18,8 @@ import (
 	"github.com/dolthub/dolt/go/libraries/doltcore/schema"
 	"github.com/dolthub/dolt/go/libraries/doltcore/sqle/dsess"
 	"github.com/dolthub/dolt/go/libraries/doltcore/sqle/sqlfmt"
+	"github.com/dolthub/dolt/go/libraries/doltcore/table/editor"
+	"github.com/dolthub/dolt/go/libraries/doltcore/table/untyped/sqlexport"
 	"github.com/dolthub/dolt/go/libraries/doltcore/table/untyped/csv"
 	"github.com/dolthub/dolt/go/store/types"
 
@@ -33,6 +35,7 @@ type Case struct {
 	Fields [][]int  `json:"fields"` // csv: one record; null encoded as [-1]
 	Cols   []string `json:"cols"`   // table: column definitions (without the pk)
 	Rows   []string `json:"rows"`   // table: value tuples as SQL text "(1, ...)"
+	N      int      `json:"n"`      // batch: number of rows pushed through the batched SQL export writer
 }
 
 func toBytes(b []int) []byte {
@@ -343,6 +346,108 @@ func runTable(c Case) (any, error) {
 	return out, nil
 }
 
+// runBatch drives the real BatchSqlExportWriter (the writer `dolt dump` uses by default) with N small
+// rows (pk = 1..N) and parses every INSERT statement it wrote with the SQL parser: tuples per
+// statement, and which of the primary keys 1..N are present, in order.
+func runBatch(c Case) (any, error) {
+	env, err := util.NewEnv(false)
+	if err != nil {
+		return nil, err
+	}
+	defer env.Close()
+	s, err := env.NewSession()
+	if err != nil {
+		return nil, err
+	}
+	if err := s.MustExec("create table t (pk int primary key, v int)"); err != nil {
+		return nil, err
+	}
+	roots, ok := dsess.DSessFromSess(s.Ctx.Session).GetRoots(s.Ctx, s.E.DBName)
+	if !ok {
+		return nil, fmt.Errorf("no roots")
+	}
+	sch, err := sessionSchema(s, "t")
+	if err != nil {
+		return nil, err
+	}
+	var buf bytes.Buffer
+	w, err := sqlexport.OpenBatchedSQLExportWriter(s.Ctx, nopCloser{&buf}, roots.Working, "t", false, sch, editor.Options{})
+	if err != nil {
+		return nil, err
+	}
+	for i := 1; i <= c.N; i++ {
+		if err := w.WriteSqlRow(s.Ctx, sql.Row{int32(i), int32(i % 7)}); err != nil {
+			return nil, err
+		}
+	}
+	if err := w.Close(s.Ctx); err != nil {
+		return nil, err
+	}
+	counts := []int{}
+	next := 1          // next expected primary key
+	missing := []int{} // first few missing keys
+	nmissing, extra, perr := 0, 0, ""
+	for _, line := range strings.Split(buf.String(), "\n") {
+		if !strings.HasPrefix(line, "INSERT INTO") {
+			continue
+		}
+		st, err := sqlparser.Parse(strings.TrimSuffix(strings.TrimSpace(line), ";"))
+		if err != nil {
+			perr = trunc(err.Error())
+			break
+		}
+		ins, ok := st.(*sqlparser.Insert)
+		if !ok {
+			perr = "not an insert"
+			break
+		}
+		rows, ok := ins.Rows.(*sqlparser.AliasedValues)
+		var vals sqlparser.Values
+		if ok {
+			vals = rows.Values
+		} else if v, ok2 := ins.Rows.(sqlparser.Values); ok2 {
+			vals = v
+		} else {
+			perr = fmt.Sprintf("unexpected rows node %T", ins.Rows)
+			break
+		}
+		counts = append(counts, len(vals))
+		for _, tup := range vals {
+			pk := -1
+			if lit, ok := tup[0].(*sqlparser.SQLVal); ok {
+				fmt.Sscanf(string(lit.Val), "%d", &pk)
+			}
+			for next < pk {
+				nmissing++
+				if len(missing) < 5 {
+					missing = append(missing, next)
+				}
+				next++
+			}
+			if pk == next {
+				next++
+			} else {
+				extra++
+			}
+		}
+	}
+	for next <= c.N {
+		nmissing++
+		if len(missing) < 5 {
+			missing = append(missing, next)
+		}
+		next++
+	}
+	return map[string]interface{}{"counts": counts, "nmissing": nmissing, "missing": missing, "extra": extra, "perr": perr}, nil
+}
+
+func trunc(s string) string {
+	if len(s) > 200 {
+		return s[:200]
+	}
+	return s
+}
+
 func binaryCol(c *sql.Column) (string, bool) {
 	t := strings.ToLower(c.Type.String())
 	return t, strings.Contains(t, "binary") || strings.Contains(t, "blob")
@@ -372,6 +477,8 @@ func Run(raw json.RawMessage) (any, error) {
 		return runCsv(c)
 	case "table":
 		return runTable(c)
+	case "batch":
+		return runBatch(c)
 	}
 	return nil, fmt.Errorf("unknown kind %q", c.Kind)
 }
